@@ -17,6 +17,8 @@
     code; its theorem is not yet written (validated only).
 -/
 import YataProofs.Converters
+import YataProofs.RenkoRun
+import YataProofs.HARun
 namespace Yata.C17
 open Yata
 variable {K : Type} [Field K] [LinearOrder K] [IsStrictOrderedRing K]
@@ -115,6 +117,35 @@ example : Renko.Inv ⟨101, 99, 101 * (1 + 1 / 100), 99 * (1 - 1 / 100), 1 / 100
   refine ⟨?_, by simp [Candle.source]⟩
   constructor <;> norm_num
 
+/-- Renko over whole streams, from the constructor: on every stream of candles whose source price is positive the state
+    stays consistent, every emitted output has at least one brick, and the volume of everything emitted plus the volume still
+    pending equals the volume of all candles consumed -/
+theorem C17_renko_run (eps brick : ℚ) (src : Source) (c0 : Candle ℚ) (s0 : Renko) (he : 0 < eps) (hc0 : 0 < c0.source src)
+    (h0 : Renko.new eps brick src c0 = .ok s0) (cs : List (Candle ℚ)) (hcs : ∀ k ∈ cs, 0 < k.source src) :
+    Renko.Inv (Renko.run s0 cs).2 ∧
+    (∀ o ∈ (Renko.run s0 cs).1, ∀ r, o = some r → 1 ≤ r.len) ∧
+    (((Renko.run s0 cs).1.map Renko.emitted).sum + (Renko.run s0 cs).2.volume = (cs.map (·.volume)).sum) :=
+  Renko.run_spec eps brick src c0 s0 he hc0 h0 cs hcs
+
+/-- one Renko step from a consistent state: an output is emitted exactly when the price has reached one of the two next
+    boundaries (this includes a price exactly on a boundary), with at least one brick, and the volume balance holds -/
+theorem C17_renko_step (s : Renko) (c : Candle ℚ) (h : Renko.Inv s) (hpos : 0 < c.source s.src) :
+    Renko.Inv (s.next c).2 ∧ (s.next c).2.src = s.src ∧
+    ((s.next c).1.isSome ↔ (s.next_block_upper ≤ c.source s.src ∨ c.source s.src ≤ s.next_block_lower)) ∧
+    (∀ o, (s.next c).1 = some o → 1 ≤ o.len ∧ o.brick_size ≠ 0) ∧
+    Renko.emitted (s.next c).1 + (s.next c).2.volume = s.volume + c.volume := Renko.next_step s c h hpos
+
+/-- Heikin-Ashi over whole streams: started from a valid candle, on every stream of valid candles every output is a valid
+    candle with its input's volume, closes at the input's ohlc4 and opens at the mean of the previous output's open and close -/
+theorem C17_heikin_ashi_run (c0 : Candle K) (h0 : c0.validateFinite = true) (cs : List (Candle K))
+    (hcs : ∀ c ∈ cs, c.validateFinite = true) :
+    let outs := (HeikinAshi.run (HeikinAshi.new c0) cs).1
+    outs.length = cs.length ∧
+    (∀ i (hi : i < outs.length) (hj : i < cs.length), (outs[i]).validateFinite = true ∧ (outs[i]).volume = (cs[i]).volume ∧
+      (outs[i]).close = (cs[i]).ohlc4) ∧
+    (∀ i (hi : i + 1 < outs.length), (outs[i + 1]).open_ = ((outs[i]'(by omega)).open_ + (outs[i]'(by omega)).close) * (1 / ((2 : Nat) : K))) ∧
+    (∀ (hi : 0 < outs.length), (outs[0]).open_ = c0.ohlc4) := HeikinAshi.run_valid c0 h0 cs hcs
+
 end Yata.C17
 
 #print axioms Yata.C17.C17_collapse_new
@@ -127,3 +158,6 @@ end Yata.C17
 #print axioms Yata.C17.C17_renko_blocks
 #print axioms Yata.C17.C17_renko_falling
 #print axioms Yata.C17.C17_renko_aggregate
+#print axioms Yata.C17.C17_renko_run
+#print axioms Yata.C17.C17_renko_step
+#print axioms Yata.C17.C17_heikin_ashi_run
